@@ -963,3 +963,85 @@ func FuzzC06(f *testing.F) {
 		}
 	}))
 }
+
+
+// C19 over histories: several lines through ONE processor and ONE registry
+// (the daemon's metrics provider lives as long as the process).
+type c19SeqCase struct {
+	Lines []c19Case `json:"lines"`
+}
+
+func execC19Seq(c c19SeqCase) Outcome {
+	rig := newSshdRig(64)
+	forms := map[string]bool{}
+	for i, ln := range c.Lines {
+		var pid, msg string
+		if ln.M != nil {
+			pid, msg = ln.M.PID, ln.M.Msg
+		} else {
+			pid, msg = ln.Junk.PID, string(ln.Junk.Msg)
+		}
+		before := rig.loginCounters()
+		nev := rig.rec.Len()
+		if err := rig.proc.ProcessSshdLogEntry(context.Background(), sshd.SshdLogEntry{PID: pid, Message: msg}); err != nil {
+			return fail("line %d returned error %v", i, err)
+		}
+		after := rig.loginCounters()
+		delta := map[string]float64{}
+		total := 0.0
+		for k, v := range after {
+			if d := v - before[k]; d != 0 {
+				delta[k] = d
+				total += d
+			}
+		}
+		evs := rig.rec.Events()[nev:]
+		if len(evs) == 0 {
+			if !startsWithKeyword(msg) && total != 0 {
+				return fail("line %d %q does not begin with a recognised keyword but changed counters %v", i, msg, delta)
+			}
+			continue
+		}
+		if len(evs) != 1 {
+			return fail("line %d: %d events", i, len(evs))
+		}
+		if total != 1 || len(delta) != 1 {
+			return fail("line %d of the history (%q): event emitted but counter deltas are %v (want exactly one increment)", i, msg, delta)
+		}
+		var key string
+		for k := range delta {
+			key = k
+		}
+		parts := strings.SplitN(key, "/", 2)
+		wantOutcome := "failure"
+		if evs[0].Ev.Outcome == auditevent.OutcomeSucceeded {
+			wantOutcome = "success"
+		}
+		if parts[1] != wantOutcome {
+			return fail("line %d of the history (%q): event outcome %q counted under label %q; earlier lines: %d", i, msg, evs[0].Ev.Outcome, key, i)
+		}
+		if ln.M != nil && ln.M.Accepted {
+			if ln.M.Method == "password" && parts[0] != "password" {
+				return fail("line %d: password login counted under method %q", i, parts[0])
+			}
+			if ln.M.Method == "pubkey" && parts[0] != "ssh-key" && parts[0] != "ssh-cert" {
+				return fail("line %d: public-key login (%q) counted under method %q", i, msg, parts[0])
+			}
+		}
+		if ln.M != nil {
+			forms[ln.M.Form] = true
+		}
+	}
+	return Outcome{NT: len(forms) >= 3, Labels: []string{fmt.Sprintf("forms:%d", imin(len(forms), 6))}}
+}
+
+func TestC19_History(t *testing.T) {
+	RunProp(t, "c19.history", func(rt *rapid.T) c19SeqCase {
+		n := rapid.IntRange(2, 12).Draw(rt, "n")
+		c := c19SeqCase{}
+		for i := 0; i < n; i++ {
+			c.Lines = append(c.Lines, genC19(rt))
+		}
+		return c
+	}, execC19Seq)
+}
